@@ -28,6 +28,7 @@ void mt_log(const char *fmt, ...)
 #include <dirent.h>
 extern size_t __sanitizer_get_current_allocated_bytes(void);
 extern int __lsan_do_recoverable_leak_check(void);
+static int mt_unjoined(void);
 static void mt_ledger(const char *tag)
 {
 	DIR *d = opendir("/proc/self/fd");
@@ -40,8 +41,8 @@ static void mt_ledger(const char *tag)
 		closedir(d);
 		n--;
 	}
-	printf("T%d %s fds=%d heap=%zu leaks=%d\n", mt_me(), tag, n, __sanitizer_get_current_allocated_bytes(),
-	       !strncmp(tag, "LEDGER-", 7) ? __lsan_do_recoverable_leak_check() : 0);
+	printf("T%d %s fds=%d heap=%zu leaks=%d unjoined=%d\n", mt_me(), tag, n, __sanitizer_get_current_allocated_bytes(),
+	       !strncmp(tag, "LEDGER-", 7) ? __lsan_do_recoverable_leak_check() : 0, mt_unjoined());
 }
 
 void mt_finish(const char *why)
@@ -88,6 +89,16 @@ static long steps;
 static pthread_key_t done_key;
 
 int mt_me(void) { return me_; }
+
+/* threads the LIBRARY created that have exited and were neither joined nor detached: each keeps its stack and TCB allocated */
+static int mt_unjoined(void)
+{
+	int t, n = 0;
+	for (t = 0; t < MT_MAXT; t++)
+		if (VT[t].state == ST_DONE && !VT[t].is_harness && !VT[t].reaped)
+			n++;
+	return n;
+}
 void mt_activity(void) { activity++; }
 
 /* ---- explicit schedules (systematic exploration): `cfg sched=a.b.c` gives the choice taken at the 1st, 2nd, ... choice point that
